@@ -173,6 +173,8 @@ def scenarios(f: Family) -> List[Tuple[str, List[tuple]]]:
     if k >= 3:
         out.append(("the group with one member given twice", [grp0[0], grp0[1], grp0[1]] + grp0[2:]))
         out.append(("the group with its last member given twice", grp0 + [grp0[-1]]))
+        out.append(("the group without its last member and with another member given twice", grp0[:-1] + [grp0[1]]))
+        out.append(("one member given as many times as the group has members", [grp0[2]] * k))
     if nP <= 5:
         allc = [("c", a, j) for a in range(nP) for j in range(len(f.C[a]))]
         out.append(("every grandchild (merges cascade)", allc))
@@ -188,7 +190,28 @@ def scenarios(f: Family) -> List[Tuple[str, List[tuple]]]:
         out.append(("first and last member with one finer descendant of each middle member between them",
                     [grp0[0], ("d", 0, 1, 0), ("d", 0, 2, 0), grp0[3]]))
         out.append(("a member replaced by its complete children", [grp0[0]] + [("d", 0, 1, m) for m in range(len(f.D[(0, 1)]))] + grp0[2:]))
+        out.append(("a member together with its own complete children, and two of its siblings (overlapping input)",
+                    [grp0[1]] + [("d", 0, 1, m) for m in range(len(f.D[(0, 1)]))] + [grp0[0], grp0[2]]))
     return out
+
+
+def _run_fn(interp, name: str, make_args):
+    """one abstract run; when the function iterates over a set of several cells (an order Python does not define in terms of the
+    cells), the run is repeated with the opposite order and counts only if both give the same outcome"""
+    interp.set_order, interp.set_iterations = "insertion", 0
+    try:
+        outs = interp.run_function(COMPACT, name, make_args())
+        if interp.set_iterations:
+            interp.set_order = "reversed"
+            outs2 = interp.run_function(COMPACT, name, make_args())
+
+            def digest(os_):
+                return [(o.kind, repr(_concrete_result(o.value)) if o.kind == "return" else repr(o.value), len(o.state.path)) for o in os_]
+            if digest(outs) != digest(outs2):
+                raise _Unmodelled("the outcome depends on the iteration order of a set")
+        return outs
+    finally:
+        interp.set_order = None
 
 
 def run(ob, su, want_prefix: str) -> Dict[str, int]:
@@ -230,9 +253,8 @@ def run(ob, su, want_prefix: str) -> Dict[str, int]:
                 stats["scenarios"] += 1
                 tag = (f"a5.core.compact.compact on {title} (cells of resolution {r}, " +
                        (f"face {face}, segment / position symbolic)" if face is not None else "face / segment / position symbolic)"))
-                lst = ListV([Seg(fam.form(nm)) for nm in names])
                 try:
-                    outs = interp.run_function(COMPACT, "compact", [lst])
+                    outs = _run_fn(interp, "compact", lambda: [ListV([Seg(fam.form(nm)) for nm in names])])
                 except (Budget, _Unmodelled, RecursionError) as e:
                     stats["not_modelled"] += 1
                     streak += 1
@@ -265,6 +287,8 @@ def run(ob, su, want_prefix: str) -> Dict[str, int]:
                        (" and " if lost and added else "") + (f"{len(added)} leaf cell(s) added" if added else ""))
                 else:
                     ob("C08.7", f"{tag}: covers the same region", core.DISCHARGED, where, f"{_show(names)} -> {_show(got)}")
+                if "overlapping input" in title:
+                    continue          # the canonical form is defined for inputs without a cell and its descendant
                 if sorted(got) != want:
                     why = "repeats a cell" if len(set(got)) != len(got) else \
                         ("keeps a complete sibling group" if len(got) > len(want) else "is not the canonical set")
@@ -348,7 +372,7 @@ def run_uncompact(ctx, su) -> Dict[str, int]:
                     stats["not_modelled"] += 1
                     continue
                 try:
-                    outs = interp.run_function(COMPACT, "uncompact", [ListV([Seg(fam.form(nm)) for nm in names]), Lin(t)])
+                    outs = _run_fn(interp, "uncompact", lambda: [ListV([Seg(fam.form(nm)) for nm in names]), Lin(t)])
                 except (Budget, _Unmodelled, RecursionError):
                     stats["not_modelled"] += 1
                     streak += 1
